@@ -41,6 +41,8 @@ POLY_A = Poly(((1.5, 0), (0.5, 1)))
 POLY_3 = Poly(((-1.25, 0), (2.0, 1), (0.5, 2)))
 SPL0 = Spline(((0.0, -2.0), (8.0, 0.5), (64.0, 10.0), (255.0, 0.0)), 0, False)
 SPL1X = Spline(((3.0, 0.0), (31.0, 10.0), (200.0, -2.0)), 1, True)
+# knots at the ends of the 64-bit range and just above 2**53: the raws of the all-ones / index / 0x5a patterns sit next to knots where no float can
+SPL_BIG = Spline(((0.0, 0.0), (72623859790382848.0, 1.0), (6510615555426900480.0, 2.0), (9223372036854775808.0, 50.0), (18446744073709551616.0, 100.0)), 0, False)
 
 
 def _own_len(tag, bits=3):
@@ -124,6 +126,7 @@ def palette():
           _simple("s8+poly3terms", "Integer", I(8, "signed", default_cal=POLY_3), 8),
           _simple("u8+spline0", "Integer", I(8, default_cal=SPL0), 8),
           _simple("u8+spline1+extrapolate", "Integer", I(8, default_cal=SPL1X), 8, core=True),
+          _simple("u64+spline0(knots beyond 2**53)", "Integer", I(64, default_cal=SPL_BIG), 64),
           _simple("f32+poly", "Float", F(32, default_cal=Poly(((0.0, 0), (2.0, 1)))), 32),
           # numbers that need all their digits: 17-digit and very small / large coefficients, spline coordinates, time scales
           _simple("u8+poly(long coefficients)", "Integer", I(8, default_cal=Poly(((1234567.5, 0), (1.52587890625e-05, 1), (0.1, 2), (-0.3333333333333333, 3)))), 8),
